@@ -526,7 +526,37 @@ def check(ctx):
     # ---- C01.8 unpause time -------------------------------------------------------
     o8 = Ob('C01.8', 'K6', 'an unpaused event is re-inserted at time + now - paused_at (hence never before now)')
     obs.append(o8)
-    unpause_time_form(P, o8)
+    rhs8 = unpause_time_form(P, o8)
+    # ---- C01.11 the resumed time is not before now, also after rounding ----------------------------------------------------------
+    o11 = Ob('C01.11', 'K6', 'the resumed time is computed as now + (time - paused_at): the remaining time, which is >= 0 exactly, is formed first and added to '
+                             'the clock, so the result cannot round to a value before now (time + (now - paused_at) can, by one ulp, when the event was due at '
+                             'the instant of its pause -- the event is then queued in the past and the clock goes backwards when it runs)')
+    obs.append(o11)
+    o11.count()
+    if rhs8 is not None:
+        Env_ = P.cls('Environment')
+        N8 = Normalizer(P, Env_)
+
+        def is_now(e):
+            l = N8.norm(e, {})
+            return l is not None and l.is_({'NOW': 1})
+
+        def is_remaining(e):
+            l = N8.norm(e, {})
+            return isinstance(e, ast.BinOp) and isinstance(e.op, ast.Sub) and l is not None and l.is_({'E_.time': 1, 'E_.paused_at': -1})
+
+        def clamped(e):
+            return isinstance(e, ast.Call) and isinstance(e.func, ast.Name) and e.func.id == 'max' and len(e.args) == 2 and any(is_now(a) for a in e.args)
+        okr = clamped(rhs8) or (isinstance(rhs8, ast.BinOp) and isinstance(rhs8.op, ast.Add)
+                                and ((is_now(rhs8.left) and is_remaining(rhs8.right)) or (is_now(rhs8.right) and is_remaining(rhs8.left))))
+        if okr:
+            o11.witness('now + remaining')
+        else:
+            fn8 = P.method(Env_, 'unpause_matching_events')[1]
+            o11.fail(P, 'Environment.unpause_matching_events', ast.unparse(rhs8), f'the resumed time is evaluated as `{ast.unparse(rhs8)}`: in floating point this can be one ulp '
+                     'before now for an event that was due at the instant it was paused (T + (U - T) < U); form the remaining time first: now + (time - paused_at)',
+                     file=Env_.mod.path, line=fn8.lineno)
+        o11.sample({'expression': ast.unparse(rhs8)})
     obs.append(ctx.shared('c20', 'C20.4', 'C01.10', 'the run a user asks for ends with the clock at exactly t0 + d only if System.simulate hands that duration to '
                           'Environment.run as it is, in one run (stages of d / n do not add up to d in floating point)'))
     return obs
